@@ -1033,28 +1033,15 @@ func main() {
 
 	// synthetic replies through the real client
 	headers := []string{"<absent>", "", "x:y", ":", "5", "5:a:b: c"}
-	doClient := func(c clientCase, sets []optSet) {
-		current.Store(fmt.Sprintf("%+v", c))
-		var isoRes []evalRes
-		if c.Stream {
-			// a streaming call: evaluated in the child (isolate.go); nothing more is asked of
-			// a group whose call already took the process down
-			if col.skip(c.group(escapedClause)) {
-				return
-			}
-			isoRes = isolated("stream-client", c, sets)
-		}
+	// judgeClient: one synthetic reply under every option list; verdict(i) is the check's
+	// answer for sets[i]
+	judgeClient := func(c clientCase, sets []optSet, verdict func(i int) (string, string)) {
 		for i, o := range sets {
 			evals++
 			if o.X != "" || o.Len != "" {
 				extraEvals++
 			}
-			var clause, obs string
-			if c.Stream {
-				clause, obs = isoRes[i].Clause, isoRes[i].Obs
-			} else {
-				clause, obs = checkClient(c, o)
-			}
+			clause, obs := verdict(i)
 			distinct.add(fmt.Sprintf("cli|%v|%d|%s|%v|%v|%s|%s", c.Stream, c.HTTP, c.Header, c.MD, c.Details, c.Body, o))
 			if len(samples) < 10 && c.HTTP%137 == 0 && c.Header == "<absent>" && c.MD && !c.Details && c.Body == "" && o.H == 1 && o.T == 1 && !o.Peer && !o.Creds {
 				samples = append(samples, map[string]interface{}{"case": c, "opts": o.String(), "observed": obs})
@@ -1073,6 +1060,28 @@ func main() {
 				}
 				col.report(c.group(clause), c.extras(o), clause+": "+obs, cc)
 			}
+		}
+	}
+	doClient := func(c clientCase, sets []optSet) {
+		current.Store(fmt.Sprintf("%+v", c))
+		judgeClient(c, sets, func(i int) (string, string) { return checkClient(c, sets[i]) })
+	}
+	// streaming calls are evaluated in the child (isolate.go), a batch at a time; nothing
+	// more is asked of a group whose call already took the process down
+	seenGroup := func(g string) bool { return col.seen[g] }
+	doClientStreams := func(cs []clientCase, sets []optSet) {
+		jobs := make([]isoJob, len(cs))
+		for j, c := range cs {
+			jobs[j] = isoJob{c: c, opts: sets, group: c.group(escapedClause)}
+		}
+		current.Store(fmt.Sprintf("%+v ... (%d cases)", cs[0], len(cs)))
+		res := isolatedBatch("stream-client", jobs, seenGroup)
+		for j, c := range cs {
+			if res[j] == nil {
+				col.collapsed++
+				continue
+			}
+			judgeClient(c, sets, func(i int) (string, string) { return res[j][i].Clause, res[j][i].Obs })
 		}
 	}
 	for pass := 0; pass < 2; pass++ {
@@ -1108,23 +1117,31 @@ func main() {
 	lap("unary synthetic replies")
 	// the streaming client derives its status from the reply with the same function
 	for hs := 100; hs <= 599; hs++ {
+		var batch []clientCase
 		for _, h := range headers {
 			for _, md := range []bool{false, true} {
 				for _, det := range []bool{false, true} {
 					if det && !thorough && h != "5" && h != "5:a:b: c" {
 						continue // quick tier: the details header only where it must be recovered
 					}
-					doClient(clientCase{Kind: "client", HTTP: hs, Header: h, MD: md, Details: det, Stream: true}, sweepSets)
+					batch = append(batch, clientCase{Kind: "client", HTTP: hs, Header: h, MD: md, Details: det, Stream: true})
 				}
 			}
 		}
+		doClientStreams(batch, sweepSets)
 	}
 
 	lap("streaming synthetic replies")
 	// server-streaming method end to end: the status travels in the body trailer
 	streamCodes := codeList
+	type streamJob struct {
+		c    streamCase
+		msg  string
+		sets []optSet
+	}
 	for pass := 0; pass < 2; pass++ {
 		for _, code := range streamCodes {
+			var batch []streamJob
 			for _, md := range mds {
 				for _, msg := range msgs {
 					for det := 0; det <= 2; det++ {
@@ -1140,44 +1157,57 @@ func main() {
 							if msg == "msg" {
 								c.Msg = ""
 							}
-							current.Store(fmt.Sprintf("%+v", c))
 							sets := optSets
 							if (md == "" || md == "both") && msg == "msg" && det <= 1 {
 								// the extra option kinds (extra.go), alone and with one of each older kind
 								sets = append(append([]optSet(nil), optSets...), liveExtra...)
 							}
-							if col.skip(fmt.Sprintf("C14|stream|code=%d|%s", code, escapedClause)) {
-								continue
-							}
-							isoRes := isolated("stream", c, sets)
-							for i, o := range sets {
-								evals++
-								if o.X != "" {
-									extraEvals++
-								}
-								clause, obs := isoRes[i].Clause, isoRes[i].Obs
-								if code != 0 {
-									distinct.add(fmt.Sprintf("str|%d|%s|%s|%d|%d|%s", code, md, msg, det, n, o))
-								}
-								if len(samples) < 13 && code%7 == 2 && md == "both" && det == 1 && n == 1 && o.H == 1 && o.T == 1 && !o.Peer && !o.Creds {
-									samples = append(samples, map[string]interface{}{"case": c, "opts": o.String(), "observed": obs})
-								}
-								if clause != "" {
-									o := o
-									cc := c
-									cc.Opts = &o
-									if o.X != "" && !isLibPanic(clause) {
-										outcome := "failure"
-										if code == 0 {
-											outcome = "success"
-										}
-										col.report(fmt.Sprintf("C14|stream-opt|%s|%s|%s", o.X, outcome, clause), fmt.Sprintf("|code=%d", code)+extras(md, c.Msg, det, o)+fmt.Sprintf("|nmsgs=%d", n), clause+": "+obs, cc)
-										continue
-									}
-									col.report(fmt.Sprintf("C14|stream|code=%d|%s", code, clause), extras(md, c.Msg, det, o)+fmt.Sprintf("|nmsgs=%d", n), clause+": "+obs, cc)
-								}
-							}
+							batch = append(batch, streamJob{c, msg, sets})
 						}
+					}
+				}
+			}
+			if len(batch) == 0 {
+				continue
+			}
+			// the streaming calls of one code: in the child (isolate.go)
+			jobs := make([]isoJob, len(batch))
+			for j, b := range batch {
+				jobs[j] = isoJob{c: b.c, opts: b.sets, group: fmt.Sprintf("C14|stream|code=%d|%s", code, escapedClause)}
+			}
+			current.Store(fmt.Sprintf("%+v ... (%d cases)", batch[0].c, len(batch)))
+			res := isolatedBatch("stream", jobs, seenGroup)
+			for j, b := range batch {
+				if res[j] == nil {
+					col.collapsed++
+					continue
+				}
+				c, md, msg, det, n := b.c, b.c.MD, b.msg, b.c.Details, b.c.NMsgs
+				for i, o := range b.sets {
+					evals++
+					if o.X != "" {
+						extraEvals++
+					}
+					clause, obs := res[j][i].Clause, res[j][i].Obs
+					if code != 0 {
+						distinct.add(fmt.Sprintf("str|%d|%s|%s|%d|%d|%s", code, md, msg, det, n, o))
+					}
+					if len(samples) < 13 && code%7 == 2 && md == "both" && det == 1 && n == 1 && o.H == 1 && o.T == 1 && !o.Peer && !o.Creds {
+						samples = append(samples, map[string]interface{}{"case": c, "opts": o.String(), "observed": obs})
+					}
+					if clause != "" {
+						o := o
+						cc := c
+						cc.Opts = &o
+						if o.X != "" && !isLibPanic(clause) {
+							outcome := "failure"
+							if code == 0 {
+								outcome = "success"
+							}
+							col.report(fmt.Sprintf("C14|stream-opt|%s|%s|%s", o.X, outcome, clause), fmt.Sprintf("|code=%d", code)+extras(md, c.Msg, det, o)+fmt.Sprintf("|nmsgs=%d", n), clause+": "+obs, cc)
+							continue
+						}
+						col.report(fmt.Sprintf("C14|stream|code=%d|%s", code, clause), extras(md, c.Msg, det, o)+fmt.Sprintf("|nmsgs=%d", n), clause+": "+obs, cc)
 					}
 				}
 			}
@@ -1327,42 +1357,51 @@ func main() {
 	lap("loopback")
 
 	// (h) streams: SetHeader / SendHeader / SetTrailer with a colliding key
-	doStream := func(c streamCase, sets []optSet) {
-		current.Store(fmt.Sprintf("%+v", c))
-		if col.skip(fmt.Sprintf("C14|stream|code=%d|%s", c.Code, escapedClause)) {
-			return
+	// (the streaming calls: a batch at a time in the child, isolate.go)
+	doStreams := func(cs []streamCase, sets []optSet) {
+		jobs := make([]isoJob, len(cs))
+		for j, c := range cs {
+			jobs[j] = isoJob{c: c, opts: sets, group: fmt.Sprintf("C14|stream|code=%d|%s", c.Code, escapedClause)}
 		}
-		isoRes := isolated("stream", c, sets)
-		for i, o := range sets {
-			evals++
-			clause, obs := isoRes[i].Clause, isoRes[i].Obs
-			distinct.add(fmt.Sprintf("str|%s|%v|%d|%d|%d|%s", c.Collide, c.Wire, c.Code, c.Details, c.NMsgs, o))
-			if extraSamples < 8 && c.Code == 5 && c.NMsgs == 1 && !c.Wire && c.Collide.Val == "ok" && c.Collide.Place != "tlr" && o.H == 1 && o.T == 1 && !o.Peer && !o.Creds {
-				extraSamples++
-				samples = append(samples, map[string]interface{}{"case": c, "opts": o.String(), "observed": obs})
+		current.Store(fmt.Sprintf("%+v ... (%d cases)", cs[0], len(cs)))
+		res := isolatedBatch("stream", jobs, seenGroup)
+		for j, c := range cs {
+			if res[j] == nil {
+				col.collapsed++
+				continue
 			}
-			if clause != "" {
-				o := o
-				cc := c
-				cc.Opts = &o
-				outcome := "failure"
-				if c.Code == 0 {
-					outcome = "success"
+			for i, o := range sets {
+				evals++
+				clause, obs := res[j][i].Clause, res[j][i].Obs
+				distinct.add(fmt.Sprintf("str|%s|%v|%d|%d|%d|%s", c.Collide, c.Wire, c.Code, c.Details, c.NMsgs, o))
+				if extraSamples < 8 && c.Code == 5 && c.NMsgs == 1 && !c.Wire && c.Collide.Val == "ok" && c.Collide.Place != "tlr" && o.H == 1 && o.T == 1 && !o.Peer && !o.Creds {
+					extraSamples++
+					samples = append(samples, map[string]interface{}{"case": c, "opts": o.String(), "observed": obs})
 				}
-				tail := fmt.Sprintf("|code=%d", c.Code)
-				if c.Wire {
-					tail += "|wire"
+				if clause != "" {
+					o := o
+					cc := c
+					cc.Opts = &o
+					outcome := "failure"
+					if c.Code == 0 {
+						outcome = "success"
+					}
+					tail := fmt.Sprintf("|code=%d", c.Code)
+					if c.Wire {
+						tail += "|wire"
+					}
+					if isLibPanic(clause) {
+						// grouped with the plain streaming cases of the code: the colliding entry goes into the tail
+						col.report(fmt.Sprintf("C14|stream|code=%d|%s", c.Code, clause), "|collide="+c.Collide.String()+strings.TrimPrefix(tail, fmt.Sprintf("|code=%d", c.Code))+extras("", "", c.Details, o)+fmt.Sprintf("|nmsgs=%d", c.NMsgs), clause+": "+obs, cc)
+						continue
+					}
+					col.report(fmt.Sprintf("C14|stream-collide|%s|%s|%s", c.Collide, outcome, clause), tail+extras("", "", c.Details, o)+fmt.Sprintf("|nmsgs=%d", c.NMsgs), clause+": "+obs, cc)
 				}
-				if isLibPanic(clause) {
-					// grouped with the plain streaming cases of the code: the colliding entry goes into the tail
-					col.report(fmt.Sprintf("C14|stream|code=%d|%s", c.Code, clause), "|collide="+c.Collide.String()+strings.TrimPrefix(tail, fmt.Sprintf("|code=%d", c.Code))+extras("", "", c.Details, o)+fmt.Sprintf("|nmsgs=%d", c.NMsgs), clause+": "+obs, cc)
-					continue
-				}
-				col.report(fmt.Sprintf("C14|stream-collide|%s|%s|%s", c.Collide, outcome, clause), tail+extras("", "", c.Details, o)+fmt.Sprintf("|nmsgs=%d", c.NMsgs), clause+": "+obs, cc)
 			}
 		}
 	}
 	for _, k := range streamCollides {
+		var batch []streamCase
 		for _, code := range codeList {
 			for n := 0; n <= 1; n++ {
 				for det := 0; det <= 1; det++ {
@@ -1371,49 +1410,36 @@ func main() {
 					}
 					k := k
 					streamCollideCases++
-					doStream(streamCase{Kind: "stream", Code: code, Details: det, NMsgs: n, Collide: &k}, optSets)
+					batch = append(batch, streamCase{Kind: "stream", Code: code, Details: det, NMsgs: n, Collide: &k})
 				}
 			}
 		}
+		doStreams(batch, optSets)
 	}
 	for _, k := range streamCollides {
+		var batch []streamCase
 		for _, code := range []uint32{0, 5} {
 			k := k
 			wireCases++
-			doStream(streamCase{Kind: "stream", Code: code, NMsgs: 1, Collide: &k, Wire: true}, wireSets)
+			batch = append(batch, streamCase{Kind: "stream", Code: code, NMsgs: 1, Collide: &k, Wire: true})
 		}
+		doStreams(batch, wireSets)
 	}
 	lap("streams colliding metadata")
 
 	// (i) how the handler's error carries the code (carrier.go)
 	carrierCases, carrierStreamCases := 0, 0
 	carrierSamples := 0
-	doCarrier := func(c carrierCase) {
-		current.Store(fmt.Sprintf("%+v", c))
-		if err := c.calibrate(); err != nil {
-			fmt.Fprintln(os.Stderr, "INCONCLUSIVE:", err)
-			os.Exit(2)
-		}
+	// judgeCarrier: one case under the option lists; verdict(i) is the check's answer for wireSets[i]
+	judgeCarrier := func(c carrierCase, verdict func(i int) (string, string)) {
 		if c.Stream {
 			carrierStreamCases++
 		} else {
 			carrierCases++
 		}
-		var isoRes []evalRes
-		if c.Stream {
-			if col.skip(c.group(escapedClause)) {
-				return
-			}
-			isoRes = isolated("carrier", c, wireSets)
-		}
 		for i, o := range wireSets {
 			evals++
-			var clause, obs string
-			if c.Stream {
-				clause, obs = isoRes[i].Clause, isoRes[i].Obs
-			} else {
-				clause, obs = checkCarrier(c, o)
-			}
+			clause, obs := verdict(i)
 			if !c.succeeds() {
 				distinct.add(fmt.Sprintf("carrier|%+v|%s", c, o))
 			}
@@ -1428,6 +1454,35 @@ func main() {
 				cc.Opts = &o
 				col.report(c.group(clause), c.extras(clause, o), clause+": "+strings.ReplaceAll(obs, "\n", `\n`), cc)
 			}
+		}
+	}
+	calibrated := func(c carrierCase) {
+		if err := c.calibrate(); err != nil {
+			fmt.Fprintln(os.Stderr, "INCONCLUSIVE:", err)
+			os.Exit(2)
+		}
+	}
+	doCarrier := func(c carrierCase) {
+		current.Store(fmt.Sprintf("%+v", c))
+		calibrated(c)
+		judgeCarrier(c, func(i int) (string, string) { return checkCarrier(c, wireSets[i]) })
+	}
+	// (the streaming calls: a batch at a time in the child, isolate.go)
+	doCarrierStreams := func(cs []carrierCase) {
+		jobs := make([]isoJob, len(cs))
+		for j, c := range cs {
+			calibrated(c)
+			jobs[j] = isoJob{c: c, opts: wireSets, group: c.group(escapedClause)}
+		}
+		current.Store(fmt.Sprintf("%+v ... (%d cases)", cs[0], len(cs)))
+		res := isolatedBatch("carrier", jobs, seenGroup)
+		for j, c := range cs {
+			if res[j] == nil {
+				col.collapsed++
+				carrierStreamCases++
+				continue
+			}
+			judgeCarrier(c, func(i int) (string, string) { return res[j][i].Clause, res[j][i].Obs })
 		}
 	}
 	type entryRenderer struct{ entry, renderer string }
@@ -1458,16 +1513,18 @@ func main() {
 				}
 			}
 			for _, er := range streamEntries {
+				var batch []carrierCase
 				for _, code := range carrierCodes(carrier, codeList) {
 					for det := 0; det <= maxDet; det++ {
 						for n := 0; n <= 1; n++ {
 							if code == 0 && det > 0 {
 								continue
 							}
-							doCarrier(carrierCase{Kind: "carrier", Carrier: carrier, Interceptor: ic, Entry: er.entry, Stream: true, Code: code, Renderer: er.renderer, Details: det, NMsgs: n})
+							batch = append(batch, carrierCase{Kind: "carrier", Carrier: carrier, Interceptor: ic, Entry: er.entry, Stream: true, Code: code, Renderer: er.renderer, Details: det, NMsgs: n})
 						}
 					}
 				}
+				doCarrierStreams(batch)
 			}
 		}
 	}
